@@ -71,5 +71,14 @@ Definition spec_C15 (i : winput) (o : obs_C15) : bool :=
       | Panic, Panic => negb (no_panic_expected s)    (* new_term with an id outside the id space *)
       | _, _ => false
       end
+  | WBytes _ =>
+      (* a binary file, possibly one whose records name terms that the file does not contain: whatever
+         from_bytes returns as an ontology is referentially closed and can be walked (a rejection, or a
+         panic of the loader itself, is C08's business, not this property's) *)
+      match fst o with
+      | Ok (_, Ok d) => ref_closed d
+      | Ok (_, Panic) => false
+      | _ => true
+      end
   | _ => true
   end.
